@@ -288,7 +288,7 @@ pub fn run_scenarios(r: &mut Report, scns: Vec<Scn>, tier: &str) {
     }
     for f in &st.violations {
       r.add_finding(Finding {
-        key: format!("{}/{}", sc.family, f.class),
+        key: format!("{}/{}", sc.name, f.class),
         detail: format!("[{}] {} (outcome: {}; {} occurrence(s); cheapest witness has {} deviation(s))", sc.name, f.detail, f.outcome, f.count, f.cost),
         replay: obj(vec![
           ("engine", s("T")),
@@ -348,3 +348,198 @@ pub fn run_scenarios(r: &mut Report, scns: Vec<Scn>, tier: &str) {
 
 #[allow(dead_code)]
 pub fn unused(_: &dyn Fn() -> Verdict) {}
+
+// ------------------------------------------------------------ hot sources
+
+/// A manual hot source built with the public `Observable::create`: it stores
+/// every observer it is handed; the driver pushes events.
+pub struct Hot<T: Clone + Send + Sync + 'static> {
+  pub obs: Arc<Mutex<Vec<Observer<'static, T>>>>,
+  pub subscribed: Arc<Mutex<usize>>,
+}
+impl<T: Clone + Send + Sync + 'static> Clone for Hot<T> {
+  fn clone(&self) -> Self {
+    Hot { obs: self.obs.clone(), subscribed: self.subscribed.clone() }
+  }
+}
+impl<T: Clone + Send + Sync + 'static> Hot<T> {
+  pub fn new() -> Hot<T> {
+    Hot { obs: Arc::new(Mutex::new(vec![])), subscribed: Arc::new(Mutex::new(0)) }
+  }
+  pub fn observable(&self) -> Observable<'static, T> {
+    let (obs, n) = (self.obs.clone(), self.subscribed.clone());
+    Observable::create(move |s| {
+      *n.lock().unwrap() += 1;
+      obs.lock().unwrap().push(s);
+    })
+  }
+  fn snapshot(&self) -> Vec<Observer<'static, T>> {
+    self.obs.lock().unwrap().clone()
+  }
+  pub fn next(&self, v: T) {
+    for o in self.snapshot() {
+      o.next(v.clone());
+    }
+  }
+  pub fn error(&self, e: RxError) {
+    for o in self.snapshot() {
+      o.error(e.clone());
+    }
+  }
+  pub fn complete(&self) {
+    for o in self.snapshot() {
+      o.complete();
+    }
+  }
+  /// does any handed-out observer still report is_subscribed()?
+  pub fn any_subscribed(&self) -> bool {
+    self.snapshot().iter().any(|o| o.is_subscribed())
+  }
+  pub fn emit(&self, e: &Emit<T>) {
+    match e {
+      Emit::N(v) => self.next(v.clone()),
+      Emit::E(k) => self.error(err(*k)),
+      Emit::C => self.complete(),
+    }
+  }
+}
+
+#[derive(Clone, Debug)]
+pub enum Emit<T> {
+  N(T),
+  E(i64),
+  C,
+}
+pub fn emit_label<T: std::fmt::Debug>(e: &Emit<T>) -> String {
+  match e {
+    Emit::N(v) => format!("n{:?}", v),
+    Emit::E(k) => format!("E{}", k),
+    Emit::C => "C".to_string(),
+  }
+}
+
+#[derive(Clone, Copy, Debug, PartialEq)]
+pub enum SubjKind {
+  Plain,
+  Behavior,
+  Replay,
+  Async,
+}
+#[derive(Clone)]
+pub enum AnySubject {
+  Plain(subjects::Subject<'static, i64>),
+  Behavior(subjects::BehaviorSubject<'static, i64>),
+  Replay(subjects::ReplaySubject<'static, i64>),
+  Async(subjects::AsyncSubject<'static, i64>),
+}
+impl AnySubject {
+  pub fn new(k: SubjKind) -> AnySubject {
+    match k {
+      SubjKind::Plain => AnySubject::Plain(subjects::Subject::new()),
+      SubjKind::Behavior => AnySubject::Behavior(subjects::BehaviorSubject::new(0)),
+      SubjKind::Replay => AnySubject::Replay(subjects::ReplaySubject::new()),
+      SubjKind::Async => AnySubject::Async(subjects::AsyncSubject::new()),
+    }
+  }
+  pub fn observable(&self) -> Observable<'static, i64> {
+    match self {
+      AnySubject::Plain(s) => s.observable(),
+      AnySubject::Behavior(s) => s.observable(),
+      AnySubject::Replay(s) => s.observable(),
+      AnySubject::Async(s) => s.observable(),
+    }
+  }
+  pub fn next(&self, v: i64) {
+    match self {
+      AnySubject::Plain(s) => s.next(v),
+      AnySubject::Behavior(s) => s.next(v),
+      AnySubject::Replay(s) => s.next(v),
+      AnySubject::Async(s) => s.next(v),
+    }
+  }
+  pub fn error(&self, e: RxError) {
+    match self {
+      AnySubject::Plain(s) => s.error(e),
+      AnySubject::Behavior(s) => s.error(e),
+      AnySubject::Replay(s) => s.error(e),
+      AnySubject::Async(s) => s.error(e),
+    }
+  }
+  pub fn complete(&self) {
+    match self {
+      AnySubject::Plain(s) => s.complete(),
+      AnySubject::Behavior(s) => s.complete(),
+      AnySubject::Replay(s) => s.complete(),
+      AnySubject::Async(s) => s.complete(),
+    }
+  }
+  pub fn emit(&self, e: &Emit<i64>) {
+    match e {
+      Emit::N(v) => self.next(*v),
+      Emit::E(k) => self.error(err(*k)),
+      Emit::C => self.complete(),
+    }
+  }
+  pub fn observer_count(&self) -> usize {
+    match self {
+      AnySubject::Plain(s) => s.verif_observer_count(),
+      AnySubject::Behavior(s) => s.verif_observer_count(),
+      AnySubject::Replay(s) => s.verif_observer_count(),
+      AnySubject::Async(s) => s.verif_observer_count(),
+    }
+  }
+}
+
+/// Marks with thread ids: "thread T is about to call into the library for X".
+#[derive(Clone, Default)]
+pub struct Causes {
+  pub m: Arc<Mutex<Vec<(usize, u64, String)>>>,
+}
+impl Causes {
+  pub fn new() -> Causes {
+    Causes::default()
+  }
+  pub fn mark(&self, what: &str) {
+    let st = rxverif_rt::stamp();
+    self.m.lock().unwrap().push((rxverif_rt::tid(), st, what.to_string()));
+  }
+  /// the library call of thread `tid` that was in progress at stamp `at`
+  pub fn cause_of(&self, tid: usize, at: u64) -> Option<(u64, String)> {
+    self
+      .m
+      .lock()
+      .unwrap()
+      .iter()
+      .filter(|c| c.0 == tid && c.1 < at)
+      .max_by_key(|c| c.1)
+      .map(|c| (c.1, c.2.clone()))
+  }
+}
+
+/// C19 / C01 oracle on a recorder: at most one terminal; no callback caused by
+/// a library call that started after the terminal callback returned.
+pub fn contract_violations(rec: &Rec, causes: &Causes) -> Vec<Violation> {
+  let mut v = vec![];
+  let ev = rec.events();
+  let terms: Vec<&Ev> = ev.iter().filter(|e| !matches!(e.k, EvK::Next(_))).collect();
+  if terms.len() > 1 {
+    v.push(viol("two-terminals", format!("subscriber saw {}", rec.short())));
+  }
+  if let Some(t) = terms.first() {
+    if t.exit != 0 {
+      for e in &ev {
+        if e.enter > t.exit {
+          if let Some((c, what)) = causes.cause_of(e.tid, e.enter) {
+            if c > t.exit {
+              v.push(viol(
+                "event-after-terminal",
+                format!("{:?} delivered (call '{}' started at {}) after terminal {:?} returned at {}; saw {}", e.k, what, c, t.k, t.exit, rec.short()),
+              ));
+            }
+          }
+        }
+      }
+    }
+  }
+  v
+}
